@@ -27,7 +27,8 @@ MANIFEST = dict(
          "scenarios, binary built with -race) do NOT prove anything: they validate the table (every report with a samber/ro frame must fall on rows of a location the table already rejects) and search "
          "for a failing input; the Lean driver only echoes this kind. Known findings (each reproduced under -race): connectableObservableImpl.subject / .subscription outside s.mu; ObserveOn/SubscribeOn (detachOn) and ToChannel teardown closing the hand-off channel "
          "under a sending callback. Found by this check, confirmed under -race and repaired in the repository since (no longer excused): Share's sourceSubscription read after Unlock, BufferWithCount.buffer and "
-         "GroupBy.groups reset by the teardown, MergeMapI's shared index, OnErrorResumeNextWith's rewritten slice.",
+         "GroupBy.groups reset by the teardown, MergeMapI's shared index, OnErrorResumeNextWith's rewritten slice."
+         ' Premise C02b (constructor table) among the modules; scenarios multiArity (every PipeN arity under concurrent subscriptions) and promPipe (two goroutines subscribing the same instrumented pipeline).',
     technique="Lean 4 lockset theorem (invariant by induction over schedules) + kernel-decided per-pair predicate over the access table regenerated from source by a lexical lock-region / emission-context analysis + race-detector runs validating the table",
     ref='5/C13')
 
